@@ -1130,6 +1130,10 @@ DOC_TEXTS = ['doc', 'multi\nline doc', 'with "quotes" inside', "with \'\'\'tripl
 COMMENTS = ['new comment', 'c', '\u00fc comment', 'has # hash', None, None]
 
 
+FV_POOL = ['b', 'a + 1', '{1, 2}', '{k: v}', '[e for e in s]', '{e for e in s}', 'f(x)', 'x if y else z', 'n.m[0]',
+           '{k: v for k, v in d}', '(p, q)', 'not z', 'ü', '-1']
+
+
 class MiscPlan:
     __slots__ = ('op', 'path', 'kind', 'arg', 'extra')
 
@@ -1180,6 +1184,14 @@ def plan_misc(rng: random.Random, tree, src=None, unpar_p=0.3):
     r = rng.random()
     m = MiscPlan()
     m.extra = {}
+    fvs = [(n, p) for n, p in nodes if isinstance(n, ast.FormattedValue) and not any(f == 'format_spec' for f, _ in p)]
+    if fvs and rng.random() < 0.3:
+        # an edit INSIDE an f-string: the expression of a replacement field is replaced (self-documenting fields
+        # `{x = }` make pfst rewrite the preceding literal text as well). Judged by Sync / observational equality only.
+        n, p = rng.choice(fvs)
+        m.op, m.arg = 'fv_replace', rng.choice(FV_POOL)
+        m.path, m.kind = p, 'FormattedValue'
+        return m
     if src is not None and rng.random() < unpar_p:
         c = _redundant_par_nodes(tree, src)
         if not c:
@@ -1236,6 +1248,19 @@ def plan_misc_sweep(rng: random.Random, tree, src, k):
             r += 1
         return r
 
+    fvs = [(n, p) for n, p in walk_paths(tree) if isinstance(n, ast.FormattedValue)
+           and not any(f == 'format_spec' for f, _ in p)]
+    if fvs:
+        # programs with f-strings: the sweep replaces the expression of every replacement field in turn (deepest
+        # first so that paths stay valid), alternating expressions that start with `{` (pfst must insert a blank after
+        # the field's own brace) with plain ones
+        fout = []
+        args = ['{1, 2}', 'b', '{k: v}', 'a + 1', '[e for e in s]']
+        for j, (n, p) in enumerate(sorted(fvs, key=lambda t: (-len(t[1]), t[1]))):
+            m = MiscPlan()
+            m.op, m.arg, m.path, m.kind, m.extra = 'fv_replace', args[j % len(args)], p, 'FormattedValue', {}
+            fout.append(m)
+        return fout[:max(k, 12)]
     ranked = sorted(stmts, key=lambda t: (-lastness(t[1]), -len(t[1]), rng.random()))
     pick = ranked[:max(1, k // 2)]
     rest = ranked[len(pick):]
@@ -1297,8 +1322,8 @@ def _under_pattern(tree, path):
 
 
 def execute_misc(m: MiscPlan, root):
-    f = node_at(root.a, m.path).f
     try:
+        f = node_at(root.a, m.path).f
         if m.op == 'put_docstr':
             f.put_docstr(m.arg, **m.extra)
         elif m.op == 'put_line_comment':
@@ -1307,6 +1332,8 @@ def execute_misc(m: MiscPlan, root):
             f.par(**m.extra)
         elif m.op == 'unpar':
             f.unpar()
+        elif m.op == 'fv_replace':
+            f.value.replace(m.arg)
         else:
             raise AssertionError(m.op)
     except Exception as e:  # noqa: BLE001
